@@ -3,6 +3,10 @@
 Streams (all inputs derive from VERIF_SEED):
   vit-mel-int      real `_melody_viterbi` on integer-valued tables (ties, -inf) vs the model over `Ext`
                    (exact arithmetic) AND over native Float                         — path + optimum, exact
+  vit-mel-big      the same at 127..257 states (P = 63..128 pitches; tables a pure function of a small spec): wide-range
+                   tables (arg-max predecessors anywhere), heavy ties, and the sparsity of the real melody HMM with a high
+                   pitch held for several frames, so that the best path runs through sustain states of index >= 128
+                   (exact Ext, native Float, and rne53 within a budget)
   vit-kc-int       real `_key_chord_viterbi` with `_CHORDS` cut to C = 1..6 chords (12*C states), integer
                    tables, vs the model over native Float (the code adds the non-integer -log 12)
   vit-kc-real      the same at the real dimension 1164 x 1164, transition table regenerated on both
@@ -10,13 +14,19 @@ Streams (all inputs derive from VERIF_SEED):
   vit-kc-float / vit-mel-float   the float tables captured from the end-to-end runs
   chords-e2e       infer_chords_for_sequence on generated sequences: annotations / key signatures vs the
                    model's writer applied to the implementation's path
-  melody-e2e       infer_melody_for_sequence: added notes / instrument vs the model's writer
+  chords-history   several infer_chords_for_sequence calls in ONE process whose parameters differ in one coordinate of
+                   (key_change_prob, chord_change_prob, chord_pitch_out_of_key_prob, chord_note_concentration) at a time,
+                   weak evidence, harness cache off; every call judged on its own against the HMM its parameters define
+  melody-e2e       infer_melody_for_sequence: added notes / instrument vs the model's writer; includes sequences with
+                   64..128 distinct pitches (129..257 states) and high notes held across several frame boundaries
   note-frames      sequence_note_frames vs the model
   chord-tables     in-key / out-of-key counts and chord pitch vectors vs the functions the rotation
                    theorem is stated about
 Oracle (independent of the model): a plain DP in the same operation order over the implementation's
 own tables must EQUAL the score of the implementation's path; brute force over all paths on tiny
-instances; well-formedness of what was added; chord likelihood unchanged under transposition.
+instances; the tables handed to the real Viterbi helpers == the HMM that the caller's parameters define (computed
+independently), and the returned chord path reaches the optimum of a DP over those independent tables; well-formedness
+of what was added; chord likelihood unchanged under transposition.
 """
 import itertools
 import math
@@ -150,6 +160,48 @@ def splitmix_table(seed, n2, lo, hi, pinf):
     out = ((z % np.uint64(hi - lo + 1)).astype(np.int64) + lo).astype(np.float64)
     out[inf] = NINF
     return out
+
+
+def big_mel_tables(np, spec):
+    """integer-valued `_melody_viterbi` tables at a LARGE state count (2P+1 >= 127 .. 257), a pure function of `spec`
+    (so a replay file carries the spec, not 66 000 numbers).  Styles:
+      wide   entries spread over a wide range: ties are rare, the arg-max predecessor of a state is anywhere in
+             0..2P, so about half of all back-pointers are >= 128
+      ties   entries in -2..0 with many -inf: numpy's first-maximum rule at a large width
+      hmm    the sparsity of the real melody HMM (a sustain state is reachable only from the onset / sustain state of
+             its own pitch) and a favoured high pitch held over several frames: the best path runs through sustain
+             states with the LARGEST indices (P+1+h >= 128), each reached from itself"""
+    import random as _random
+    P, T, seed, style = spec['P'], spec['frames'], spec['seed'], spec['style']
+    n = 2 * P + 1
+    r = _random.Random(seed)
+    if style == 'wide':
+        lo, pinf = -r.choice([1000, 10 ** 6, 10 ** 9]), r.choice([0, 0, 10])
+        tr = splitmix_table(seed, n * n, lo, 0, pinf).reshape(n, n)
+        fl = splitmix_table(seed + 1, T * n, lo, 0, pinf).reshape(T, n)
+    elif style == 'ties':
+        pinf = r.choice([0, 30, 60, 90])
+        tr = splitmix_table(seed, n * n, -2, 0, pinf).reshape(n, n)
+        fl = splitmix_table(seed + 1, T * n, -2, 0, r.choice([0, 30])).reshape(T, n)
+    else:
+        tr = splitmix_table(seed, n * n, -9, -1, 0).reshape(n, n)
+        keep = np.zeros((n, n), dtype=bool)
+        keep[:, :P + 1] = True
+        j = np.arange(P)
+        keep[1 + j, P + 1 + j] = True
+        keep[P + 1 + j, P + 1 + j] = True
+        tr[~keep] = NINF
+        fl = splitmix_table(seed + 1, T * n, -9, -4, 20).reshape(T, n)
+        t = 0
+        while t + 1 < T:
+            h = P - 1 if r.random() < 0.35 else r.randrange(max(0, P - 12), P)   # the top pitch (state 2P) or one near it
+            t1 = min(T - 1, t + r.choice([1, 2, 2, 3, 5]))     # onset at t, sustained through t1
+            fl[t, 1 + h] = 0.0
+            fl[t + 1:t1 + 1, P + 1 + h] = 0.0
+            tr[1 + h, P + 1 + h] = 0.0
+            tr[P + 1 + h, P + 1 + h] = 0.0
+            t = t1 + r.choice([1, 1, 2])
+    return fl, tr
 
 
 # ============================================================================= the implementation
@@ -345,11 +397,18 @@ for _a in HIST_KCP:
                 HIST_INDEX[(_a, _b, _c, _d)] = len(PARAM_SETS)
                 PARAM_SETS.append({'key_change_prob': _a, 'chord_change_prob': _b, 'chord_pitch_out_of_key_prob': _c,
                                    'chord_note_concentration': _d})
+def case_params(d):
+    """keyword parameters of a chord case: parameter set `params`, with `param_values` (off-grid values) on top"""
+    kw = dict(PARAM_SETS[d['params']])
+    kw.update(d.get('param_values') or {})
+    return kw
+
+
 SUPPORTED = [(2, 2), (2, 4), (3, 4), (4, 4), (6, 8)]
 KINDS = [[0, 4, 7], [0, 3, 7], [0, 4, 8], [0, 3, 6], [0, 4, 7, 10], [0, 4, 7, 11], [0, 3, 7, 10], [0, 3, 6, 10]]
 
 
-def gen_chord_case(rng, nparams):
+def gen_chord_case(rng, nparams, family=False):
     d = {'kind': 'chords', 'notes': [], 'annotations': [], 'key_signatures': []}
     hist = []
     mode = rng.choice(['meter', 'meter', 'meter', 'beats', 'beats-abs'])
@@ -444,10 +503,145 @@ def gen_chord_case(rng, nparams):
     if rng.random() < 0.3:
         d['key_signatures'].append([0.0, rng.randrange(12)])
     d['add_key_signatures'] = rng.random() < 0.5
-    d['params'] = rng.randrange(nparams)
+    d['params'] = (rng.randrange(nparams) if not family or rng.random() < 0.6
+                   else rng.randrange(N_BASE_PARAM_SETS, len(PARAM_SETS)))
     hist += ['frames:%s' % ('1' if F == 1 else '2-8' if F <= 8 else '9-32' if F <= 32 else '33-64'),
              'params:%d' % d['params'], 'keys:%s' % d['add_key_signatures']]
     return d, hist
+
+
+def gen_melody_big(rng):
+    """many distinct pitches (64..128 -> 129..257 melody states) on a time grid with few distinct event times, and
+    HIGH notes held across several frame boundaries while shorter lower notes come and go underneath: the maximum-
+    likelihood melody stays on the sustain state of a top pitch (state index P+1+j >= 128) for several frames"""
+    d = {'kind': 'melody', 'notes': []}
+    P = rng.choice([64, 65, 70, 80, 90, 100, 128, 128, rng.randint(64, 128), rng.randint(64, 100)])
+    pitches = sorted(rng.sample(range(128), P))
+    step = rng.choice([0.125, 0.25, 0.1])
+    per_slot = rng.choice([1, 2, 3, 4]) if P <= 90 else rng.choice([2, 3, 4, 6])
+    order = list(pitches)
+    k = rng.random()
+    if k < 0.3:
+        order.reverse()
+    elif k < 0.6:
+        rng.shuffle(order)
+    slot = 0
+    sections = ['run', 'held'] if rng.random() < 0.7 else ['held', 'run']
+    n_held = rng.choice([1, 2, 3, 4])
+    top = pitches[-min(P, 10):]
+    low = pitches[:P // 2]
+    for sec in sections:
+        if sec == 'run':
+            for i in range(0, P, per_slot):
+                for p in order[i:i + per_slot]:
+                    ln = rng.choice([1, 1, 1, 2])
+                    d['notes'].append([p, slot * step, (slot + ln) * step, rng.choice([0, 0, 1]), 0, False])
+                slot += 1
+            slot += 1
+        else:
+            for _ in range(n_held):
+                L = rng.choice([3, 4, 5, 8])
+                hp = top[-1] if rng.random() < 0.4 else rng.choice(top)      # the very top pitch: sustain state 2P
+                d['notes'].append([hp, slot * step, (slot + L) * step, 0, 0, False])
+                for q in range(1, L):
+                    if rng.random() < 0.85:
+                        lp = rng.choice(low)
+                        off = rng.choice([0.0, 0.0, 0.5])
+                        d['notes'].append([lp, (slot + q + off) * step, (slot + q + off + rng.choice([0.5, 1.0])) * step,
+                                           rng.choice([0, 1, 2]), 0, False])
+                slot += L + rng.choice([0, 0, 1])
+    if rng.random() < 0.2:
+        d['notes'].append([rng.choice(pitches), 0.0, step, 3, 0, True])       # a drum note: no state of its own
+    if rng.random() < 0.3:
+        rng.shuffle(d['notes'])
+    mx = max(n[2] for n in d['notes'])
+    d['total_time'] = mx if rng.random() < 0.6 else mx + rng.choice([0.5, 0.001])
+    k = rng.random()
+    if k < 0.5:
+        d['params'] = {}
+    else:
+        d['params'] = {'melody_interval_scale': rng.choice([0.5, 2.0, 7.0]), 'rest_prob': rng.choice([0.01, 0.1, 0.2, 0.5]),
+                       'instantaneous_non_max_pitch_prob': rng.choice([1e-15, 1e-3, 0.3]),
+                       'instantaneous_non_empty_rest_prob': rng.choice([0.0, 1e-3, 0.2]),
+                       'instantaneous_missing_pitch_prob': rng.choice([1e-15, 1e-3, 0.4])}
+    hist = ['big', 'pitches:%s' % ('64-99' if P < 100 else '100-127' if P < 128 else '128'),
+            'params:%s' % ('default' if not d['params'] else 'custom')]
+    return d, hist
+
+
+def gen_weak_chord_input(rng):
+    """a short quantized 4/4 sequence (one chord frame per second) with weak / ambiguous evidence: one to three tones
+    per frame, in-key and out-of-key roots mixed, so that the prior and the transition model decide the path"""
+    d = {'kind': 'chords', 'notes': [], 'annotations': [], 'key_signatures': [], 'qpm': 120.0, 'ts': [4, 4], 'spq': 4,
+         'chords_per_bar': 2}
+    F = rng.choice([2, 3, 4, 6, 6, 8])
+    key = rng.randrange(12)
+    scale = [(key + o) % 12 for o in [0, 2, 4, 5, 7, 9, 11]]
+    for f in range(F):
+        root = rng.choice(scale) if rng.random() < 0.6 else rng.randrange(12)
+        kind = rng.choice(KINDS[:2] + KINDS[4:7])
+        tones = rng.sample(kind, rng.choice([1, 2, 2, 3, 3]))
+        if rng.random() < 0.08:
+            continue        # an empty frame
+        for o in tones:
+            d['notes'].append([12 * rng.choice([4, 5]) + (root + o) % 12, float(f), float(f + 1), 0, 0, False])
+    if not d['notes']:
+        d['notes'].append([60 + key, 0.0, float(F), 0, 0, False])
+    d['total_time'] = float(F)
+    return d
+
+
+def gen_history(rng, full, style):
+    """consecutive calls in one process.  Parameters move on the cube HIST_KCP x HIST_CCP x HIST_POUT (x HIST_CONC),
+    one coordinate at a time; `star`: centre, neighbour, centre, neighbour, … (each neighbour differs from the centre in
+    exactly one of the three table parameters and is adjacent to it in time, the centre's concentration changes between
+    visits); `walk`: every step flips exactly one of the four coordinates or none."""
+    flip = lambda vals, v: vals[(vals.index(v) + 1) % len(vals)]
+    seq = []
+    if style == 'star':
+        c = (0.001, 0.5, 0.01) if (not full or rng.random() < 0.5) else (rng.choice(HIST_KCP), rng.choice(HIST_CCP), rng.choice(HIST_POUT))
+        nb = [(flip(HIST_KCP, c[0]), c[1], c[2]), (c[0], flip(HIST_CCP, c[1]), c[2]), (c[0], c[1], flip(HIST_POUT, c[2]))]
+        rng.shuffle(nb)
+        concs = list(HIST_CONC)
+        rng.shuffle(concs)
+        for i, x in enumerate(nb):
+            seq.append(c + (concs[i % len(concs)],))
+            seq.append(x + (rng.choice(HIST_CONC[1:]),))
+        # one NEAR neighbour: the same corner with one table parameter moved a little (coarsened memo keys)
+        k = rng.randrange(3)
+        near = list(c)
+        near[k] = min(0.95, near[k] * (1 + rng.choice([-1, 1]) * rng.uniform(0.05, 0.3)))
+        seq.append(c + (rng.choice(HIST_CONC),))
+        seq.append(tuple(near) + (rng.choice(HIST_CONC[1:]),))
+        if rng.random() < 0.5:
+            seq = seq[1:] + seq[:1]     # start at a neighbour
+    else:
+        cur = [rng.choice(HIST_KCP), rng.choice(HIST_CCP), rng.choice(HIST_POUT), rng.choice(HIST_CONC)]
+        vals = [HIST_KCP, HIST_CCP, HIST_POUT, HIST_CONC]
+        for i in range(rng.choice([6, 8, 10]) if full else 6):
+            seq.append(tuple(cur))
+            k = rng.choice([0, 1, 2, 2, 3, 3, None])
+            if k is not None and k < 3 and rng.random() < 0.4:
+                # off the grid: a nearby value of the same parameter (a memo keyed on a coarsened value goes stale)
+                cur[k] = min(0.95, cur[k] * (1 + rng.choice([-1, 1]) * rng.uniform(0.05, 0.3)))
+            elif k is not None:
+                cur[k] = rng.choice([v for v in vals[k] if v != cur[k]])
+    same_input = rng.random() < 0.5
+    base = gen_weak_chord_input(rng)
+    addk = rng.random() < 0.7
+    calls = []
+    for i, pv in enumerate(seq):
+        d = dict(base if same_input else gen_weak_chord_input(rng))
+        d['add_key_signatures'] = addk if same_input else rng.random() < 0.7
+        grid = (min(HIST_KCP, key=lambda v: abs(v - pv[0])), min(HIST_CCP, key=lambda v: abs(v - pv[1])),
+                min(HIST_POUT, key=lambda v: abs(v - pv[2])), pv[3])
+        d['params'] = HIST_INDEX[grid]
+        if grid != pv:
+            d['param_values'] = {'key_change_prob': pv[0], 'chord_change_prob': pv[1], 'chord_pitch_out_of_key_prob': pv[2]}
+        changed = 'first' if i == 0 else '+'.join(n for n, a, b in zip(['key_change', 'chord_change', 'out_of_key', 'concentration'], seq[i - 1], pv) if a != b) or 'none'
+        calls.append((d, ['style:' + style, 'varies:' + changed, 'input:' + ('same' if same_input else 'fresh'),
+                          'concentration:%g' % pv[3], 'grid:' + ('on' if grid == pv else 'off')]))
+    return calls
 
 
 def gen_melody_case(rng):
@@ -567,7 +761,7 @@ def run_chords(d, cache):
     """infer_chords_for_sequence on the case; returns dict(seq=, err=, cap=)"""
     from note_seq import chord_inference as ci
     s = prepare_chord_seq(d)
-    kw = dict(PARAM_SETS[d['params']])
+    kw = case_params(d)
     with Capture(cache) as cap, warnings.catch_warnings():
         warnings.simplefilter('ignore')
         try:
@@ -605,6 +799,7 @@ _TABLE_CACHE = {}
 
 
 LIKELIHOOD_MAX_FRAMES = 16
+BIG_RNE53_BUDGET = 4000000     # additions of the rne53-on-rationals instance per many-state melody table (measured: 257 states x 14 frames of integers 0.5 s)
 
 
 def oracle_chord_tables(np, ci, d, s, cap, fl, kc, tr, C, path=None):
@@ -615,7 +810,7 @@ def oracle_chord_tables(np, ci, d, s, cap, fl, kc, tr, C, path=None):
     import inspect
     sig = inspect.signature(ci.infer_chords_for_sequence)
     par = {k: v.default for k, v in sig.parameters.items() if v.default is not inspect.Parameter.empty}
-    par.update(PARAM_SETS[d['params']])
+    par.update(case_params(d))
     pout, kcp, ccp, conc = (par['chord_pitch_out_of_key_prob'], par['key_change_prob'], par['chord_change_prob'],
                             par['chord_note_concentration'])
     chords = list(ci._CHORDS)
@@ -658,7 +853,7 @@ def oracle_chord_tables(np, ci, d, s, cap, fl, kc, tr, C, path=None):
     bad = close_tables(np, tr, T)
     if bad:
         return ('the key-chord transition table used by chord inference is not the one key_change_prob=%r, '
-                'chord_change_prob=%r define: entry %r' % (kcp, ccp, bad))
+                'chord_change_prob=%r, chord_pitch_out_of_key_prob=%r define: entry %r' % (kcp, ccp, pout, bad))
     if cap.frames_arg:
         with np.errstate(divide='ignore', invalid='ignore'):
             npv = ci.sequence_note_pitch_vectors(s, cap.frames_arg[0])
@@ -696,15 +891,16 @@ def oracle_chords(np, d, res):
     frames = fl.shape[0]
     if not (1 <= frames <= 64):
         return 'generator produced %d frames (outside 1..64)' % frames
-    if np.isnan(fl).any() or np.isnan(kc).any() or np.isnan(tr).any():
-        return None     # NaN tables (0 * inf in a parameter corner) are outside the property's quantifier
-    r = oracle_kc(np, path, fl, kc, tr, C)
-    if r:
-        return r
     if cap.impure:
         return ('_key_chord_transition_distribution returned a different table when called again with identical arguments '
                 '(key_change_prob, chord_change_prob) = %r: it depends on hidden state' % (cap.impure[0],))
+    # first "its own model" (NaN entries must be NaN in the independently computed tables too), only then the excuse
     r = oracle_chord_tables(np, ci, d, s, cap, fl, kc, tr, C, path)
+    if r:
+        return r
+    if np.isnan(fl).any() or np.isnan(kc).any() or np.isnan(tr).any():
+        return None     # NaN tables (0 * inf in a parameter corner) are outside the property's quantifier
+    r = oracle_kc(np, path, fl, kc, tr, C)
     if r:
         return r
     tm = chord_timing(d, s, cap)
@@ -983,12 +1179,16 @@ def run(chk):
         'over Lean native Float (same IEEE additions) — NaN, +inf, overflow and subnormal sums are outside the model',
         'numpy: log, dot, norm, argmax (first maximum), tile; likelihood VALUES are inputs to the model',
         'monkey-patched module tables _CHORDS/_KEY_CHORDS for the small key-chord instances (the real function body runs)'])
-    chk.rule = ('Viterbi helpers on integer tables with ties and -inf (melody: P=1..6 pitches, 1..12 frames; key-chord: '
+    chk.rule = ('Viterbi helpers on integer tables with ties and -inf (melody: P=1..6 pitches, 1..12 frames, and P=63..128 '
+                'pitches = 127..257 states, 2..14 frames, best path through states >= 128; key-chord: '
                 '12*C states for C=1..6 and the real 1164 states), float tables captured from end-to-end runs; '
                 'infer_chords_for_sequence on generated sequences of 1..64 chord frames (five supported meters, explicit '
                 'chords_per_bar, beat annotations with/without absolute quantization, six parameter sets incl. 0/1 '
-                'probabilities); infer_melody_for_sequence on 0..100 notes (<= 200 note events) from a time pool with '
-                'coincident onsets/offsets. non-trivial = distinct instance on which the implementation returned a path')
+                'probabilities plus a 2x2x2x3 cube of parameter sets sharing every pair of table parameters), and call '
+                'histories in one process (one parameter changes per call, weak evidence, each call judged independently); '
+                'infer_melody_for_sequence on 0..100 notes (<= 200 note events) from a time pool with '
+                'coincident onsets/offsets, and on 64..128 distinct pitches with held high notes. '
+                'non-trivial = distinct instance on which the implementation returned a path')
     C0 = len(ci._CHORDS)
     import time as _time
     t_mark = [_time.time()]
@@ -1046,6 +1246,40 @@ def run(chk):
                      ('vit-mel-int', case, (path, sc), 'rat', None)])
 
     lap('vit-mel-int')
+    # ------------------------------------------------------------------ (i) melody Viterbi, integer tables, 127..257 states
+    # `viterbi_optimal` speaks about any number of states; the real helper keeps its back-pointers in a fixed-width
+    # integer matrix.  Here the state count straddles 128 and 256 and the best path runs through the high indices.
+    rng = chk.subrng('vit-mel-big')
+    for i in range(chk.n(16, 240)):
+        P = rng.choice([63, 64, 65, 70, 80, 100, 127, 128, 128, rng.randint(64, 128)])
+        T = rng.choice([2, 3, 3, 4, 6, 9, 14])
+        spec = {'P': P, 'frames': T, 'seed': rng.randrange(1, 2 ** 40), 'style': ['hmm', 'wide', 'hmm', 'ties'][i % 4]}
+        fl, tr = big_mel_tables(np, spec)
+        n = 2 * P + 1
+        pitches = sorted(rng.sample(range(128), P))
+        case = {'kind': 'viterbi-mel', 'P': P, 'frames': T, 'big': spec}
+        try:
+            path = impl_mel(mi, pitches, fl, tr)
+        except Exception as e:  # pylint: disable=broad-except
+            fail_once('_melody_viterbi raised %s: %s' % (type(e).__name__, e), case)
+            continue
+        o = oracle_mel(np, path, fl, tr)
+        if o:
+            fail_once(o, case)
+        sc = mel_score(path, fl, tr)
+        bodyf = '%d %d %s %s' % (P, T, hexarr(tr), hexarr(fl))
+        rq = n * n * T <= BIG_RNE53_BUDGET
+        hi = sum(1 for x in path[:-1] if x >= 128)
+        groups.append(['melI %d %d %s %s' % (P, T, extarr(tr), extarr(fl)), 'melF ' + bodyf] + (['melQ ' + bodyf] if rq else []))
+        meta.append([('vit-mel-big', case, (path, sc), 'ext',
+                      ['style:' + spec['style'], 'states:%s' % ('<=128' if n <= 128 else '129-255' if n < 256 else '257'),
+                       'T%s' % ('2-4' if T <= 4 else '5+'), 'allinf' if sc == NINF else 'finite',
+                       'predecessors>=128 on path:%s' % ('0' if hi == 0 else '1' if hi == 1 else '2+'),
+                       'sustain>=128 held:%s' % ('yes' if any(a == b and a >= 128 and a > P for a, b in zip(path, path[1:])) else 'no'),
+                       'rne53' if rq else 'native+exact-only']),
+                     ('vit-mel-big', case, (path, sc), 'hex', None)]
+                    + ([('vit-mel-big', case, (path, sc), 'rat', None)] if rq else []))
+    lap('vit-mel-big')
     # ------------------------------------------------------------------ (i) key-chord Viterbi, small patched state space
     rng = chk.subrng('vit-kc-int')
     for i in range(chk.n(400, 8000)):
@@ -1123,36 +1357,24 @@ def run(chk):
     # ------------------------------------------------------------------ (ii)+(iii) chords end to end
     rng = chk.subrng('chords-e2e')
     cache = {}
-    nparams = chk.n(3, len(PARAM_SETS))
+    nparams = chk.n(3, N_BASE_PARAM_SETS)
     set_lines = {}
-    by_tr = {}      # parameter set -> current group index
-    tr_groups = []  # [(tr array, [lines], [meta])]
+    by_tr = {}      # digest of the transition table the code used -> current group index
+    tr_groups = []  # [(tr array, [lines], [meta], [work])]
     max_rel = 0.0
-    for i in range(chk.n(60, 2000)):
-        d, hist = gen_chord_case(rng, nparams)
-        res = run_chords(d, cache)
-        o = oracle_chords(np, d, res)
-        chk.count('oracle-chords', None)
-        if o:
-            fail_once(o, d)
-        if res['err'] is not None or len(res['cap'].kc) != 1:
-            chk.count('chords-e2e', None, False, hist + ['impl-error'])
-            continue
-        if i % 3 == 0 and d['notes'] and all(12 <= n[0] <= 110 for n in d['notes']):
-            k = rng.randrange(1, 12)
-            o, rel = oracle_transpose(np, d, res, cache, k)
-            chk.count('oracle-transpose', None, False, 'exact' if rel == 0.0 else 'ulps' if rel is not None else 'n/a')
-            if rel:
-                max_rel = max(max_rel, rel)
-            if o:
-                fail_once(o, dict(d, transpose=k))
+
+    def chord_lines(stream, d, res, hist, replay_obj):
+        """correspondence requests for one finished call: the real Viterbi's path on the tables it was given vs the
+        model on the same tables, and the annotations it wrote vs the model's writer.  Groups are keyed by the CONTENT
+        of the transition table the code used (never by the parameters it was supposed to come from)."""
         fl, kc, tr, result = res['cap'].kc[0]
         if np.isnan(fl).any() or np.isnan(tr).any() or np.isnan(kc).any():
-            chk.count('chords-e2e', None, False, hist + ['nan-tables-skipped'])
-            continue
+            chk.count(stream, None, False, hist + ['nan-tables-skipped'])
+            return
         path = kc_indices(ci, result, C0)
         sc = kc_score(np, path, fl, kc, tr, C0)
-        key = d['params']
+        import hashlib
+        key = hashlib.md5(tr.tobytes()).hexdigest()
         if key not in by_tr or tr_groups[by_tr[key]][3][0] > 60:
             # one driver process per ~60 frames of work; the 1164 x 1164 table is sent once per process
             if key not in set_lines:
@@ -1160,12 +1382,11 @@ def run(chk):
             by_tr[key] = len(tr_groups)
             tr_groups.append((tr, [set_lines[key]], [('setF', None, None, 'set', None)], [0]))
         ref_tr, lines, mt, work = tr_groups[by_tr[key]]
-        if ref_tr.shape != tr.shape or not (ref_tr == tr).all():
-            raise RuntimeError('transition table differs between two runs with the same parameters')
         work[0] += fl.shape[0]
         lines.append('kcF %d %d %s %s %s cur' % (C0, fl.shape[0], nl_hex, hexarr(kc), hexarr(fl)))
-        mt.append(('vit-kc-float', d, (path, sc), 'hex', ['T%s' % ('1' if len(path) == 1 else '2-8' if len(path) <= 8 else '9+'),
-                                                          'params:%d' % d['params']]))
+        mt.append(('vit-kc-float', replay_obj, (path, sc), 'hex',
+                   ['T%s' % ('1' if len(path) == 1 else '2-8' if len(path) <= 8 else '9+'), 'params:%d' % d['params'],
+                    'from:' + stream]))
         # the writer, on the implementation's path
         s = res['seq']
         tm = chord_timing(d, s, res['cap'])
@@ -1183,25 +1404,72 @@ def run(chk):
         else:
             impl_w += ' 0'
         lines.append('cw %d %d %s %d %s' % (C0, 1 if d['add_key_signatures'] else 0, tmw, len(path), ' '.join(map(str, path))))
-        mt.append(('chords-e2e', d, impl_w, 'cw', hist + ['anns:%s' % ('1' if len(anns) == 1 else '2-5' if len(anns) <= 5 else '6+'),
-                                                          'NC' if any(a.text == 'N.C.' for a in anns) else 'noNC',
-                                                          'keychange' if len({i // C0 for i in path}) > 1 else 'onekey']))
+        mt.append((stream, replay_obj, impl_w, 'cw', hist + ['anns:%s' % ('1' if len(anns) == 1 else '2-5' if len(anns) <= 5 else '6+'),
+                                                             'NC' if any(a.text == 'N.C.' for a in anns) else 'noNC',
+                                                             'keychange' if len({i // C0 for i in path}) > 1 else 'onekey']))
+
+    for i in range(chk.n(60, 2000)):
+        d, hist = gen_chord_case(rng, nparams, chk.thorough)
+        res = run_chords(d, cache)
+        o = oracle_chords(np, d, res)
+        chk.count('oracle-chords', None)
+        if o:
+            fail_once(o, d)
+        if res['err'] is not None or len(res['cap'].kc) != 1:
+            chk.count('chords-e2e', None, False, hist + ['impl-error'])
+            continue
+        if i % 3 == 0 and d['notes'] and all(12 <= n[0] <= 110 for n in d['notes']):
+            k = rng.randrange(1, 12)
+            o, rel = oracle_transpose(np, d, res, cache, k)
+            chk.count('oracle-transpose', None, False, 'exact' if rel == 0.0 else 'ulps' if rel is not None else 'n/a')
+            if rel:
+                max_rel = max(max_rel, rel)
+            if o:
+                fail_once(o, dict(d, transpose=k))
+        chord_lines('chords-e2e', d, res, hist, d)
+    chk.notes['transpose_max_relative_difference'] = max_rel
+    lap('chords-e2e')
+
+    # ------------------------------------------------------------------ call histories in ONE process
+    # consecutive infer_chords_for_sequence calls whose parameters differ in exactly one of key_change_prob /
+    # chord_change_prob / chord_pitch_out_of_key_prob / chord_note_concentration (so every pair is held fixed while a
+    # third varies), on weak evidence, WITHOUT the harness's table cache (the real functions run unpatched but for the
+    # recording wrappers).  Every call is judged on its own: the tables handed to the Viterbi helper and the
+    # likelihood of the returned path against the HMM that the parameters of THAT call define, computed independently.
+    rng = chk.subrng('chords-history')
+    for h in range(chk.n(2, 24)):
+        calls = gen_history(rng, chk.thorough, ['star', 'walk'][h % 2])
+        for k, (d, hist) in enumerate(calls):
+            res = run_chords(d, None)
+            rep = {'kind': 'chords-history', 'calls': [c for c, _ in calls[:k + 1]]}
+            o = oracle_chords(np, d, res)
+            chk.count('oracle-chords', None)
+            if o:
+                fail_once(Fail('call %d of %d consecutive calls in one process: %s' % (k + 1, len(calls), o)), rep)
+            if res['err'] is not None or len(res['cap'].kc) != 1:
+                chk.count('chords-history', None, False, hist + ['impl-error'])
+                continue
+            chord_lines('chords-history', d, res, hist, rep)
     for tr, lines, mt, _ in tr_groups:
         groups.append(lines)
         meta.append(mt)
-    chk.notes['transpose_max_relative_difference'] = max_rel
+    lap('chords-history')
 
     # documented rejections of infer_chords_for_sequence (oracle only; the writer model does not cover them)
     malformed_chords(chk, cache, fail_once)
 
-    lap('chords-e2e')
+    lap('chords-rejections')
     # ------------------------------------------------------------------ (ii)+(iii) melody end to end + note frames
     rng = chk.subrng('melody-e2e')
     rng_z = chk.subrng('melody-zero-length-at-end')
+    rng_b = chk.subrng('melody-many-pitches')
     n_main = chk.n(400, 20000)
-    for i in range(n_main + chk.n(20, 300)):
+    n_z = chk.n(20, 300)
+    for i in range(n_main + n_z + chk.n(20, 400)):
         if i < n_main:
             d, hist = gen_melody_case(rng)
+        elif i >= n_main + n_z:
+            d, hist = gen_melody_big(rng_b)
         else:
             # separate small stream: a zero-length note exactly on total_time (known finding F-C19-1 when it
             # misleads the melody; the model follows the code, so the correspondence still has to agree)
@@ -1244,7 +1512,10 @@ def run(chk):
                 path = mel_indices(None, result, pit)
                 sc = mel_score(path, fl, tr)
                 lines.append('melF %d %d %s %s' % (len(pit), fl.shape[0], hexarr(tr), hexarr(fl)))
-                rq = fl.shape[0] * fl.shape[1] ** 2 <= 30000 and not (fl == np.inf).any()
+                # the rne53-on-rationals instance: small tables, and the many-pitch tables (half their entries are -inf,
+                # measured 0.3 s at 181 states x 33 frames)
+                rq = (fl.shape[0] * fl.shape[1] ** 2 <= (BIG_RNE53_BUDGET if fl.shape[1] > 128 else 30000)
+                      and not (fl == np.inf).any())
                 mt.append(('vit-mel-float', d, (path, sc), 'hex', ['P%s' % ('1' if len(pit) == 1 else '2-4' if len(pit) <= 4 else '5+'),
                                                                    'allinf' if sc == NINF else 'finite', 'rne53' if rq else 'native-only']))
                 if rq:
@@ -1256,7 +1527,10 @@ def run(chk):
                 impl_w = 'ok %d' % len(added) + ''.join(' %s %s %d' % (rat(n.start_time), rat(n.end_time), n.pitch) for n in added)
                 mt.append(('melody-e2e', d, impl_w, 'mw', hist + ['added:%s' % ('0' if not added else '1-3' if len(added) <= 3 else '4+'),
                                                                   'rest-in-path' if 0 in path[1:] else 'no-rest',
-                                                                  'sustain' if any(x > len(pit) for x in path) else 'no-sustain']))
+                                                                  'sustain' if any(x > len(pit) for x in path) else 'no-sustain']
+                           + (['states:%s' % ('129-255' if fl.shape[1] < 256 else '257'),
+                               'sustain>=128 held:%s' % ('yes' if any(a == b and a >= 128 and a > len(pit) for a, b in zip(path, path[1:])) else 'no')]
+                              if fl.shape[1] > 128 else [])))
                 if any(n.velocity != mi.MELODY_VELOCITY for n in added):
                     chk.disagree('melody-e2e', d, 'velocity %s' % [n.velocity for n in added], 'velocity %d' % mi.MELODY_VELOCITY)
             else:
@@ -1422,8 +1696,8 @@ def replay_case(np, obj, cache, quiet=False):
     kind = obj.get('kind')
     say = (lambda *a: None) if quiet else print
     if kind == 'viterbi-mel':
-        fl, tr = tab(obj['fl']), tab(obj['tr'])
-        pitches = list(range(40, 40 + obj['P']))
+        fl, tr = big_mel_tables(np, obj['big']) if 'big' in obj else (tab(obj['fl']), tab(obj['tr']))
+        pitches = list(range(obj['P']))
         try:
             path = impl_mel(mi, pitches, fl, tr)
         except Exception as e:  # pylint: disable=broad-except
@@ -1444,6 +1718,16 @@ def replay_case(np, obj, cache, quiet=False):
             return '_key_chord_viterbi raised %s: %s' % (type(e).__name__, e)
         say('path', path, 'score', kc_score(np, path, fl, kc, tr, C))
         return oracle_kc(np, path, fl, kc, tr, C)
+    if kind == 'chords-history':
+        # all calls are made again, in order, in this one process, unpatched; every call is judged on its own
+        first = None
+        for k, d in enumerate(obj['calls']):
+            res = run_chords(d, None)
+            r = oracle_chords(np, d, res)
+            say('call %d/%d params %r -> %s' % (k + 1, len(obj['calls']), case_params(d), r or 'holds'))
+            if r and first is None:
+                first = 'call %d of %d consecutive calls in one process: %s' % (k + 1, len(obj['calls']), r)
+        return first
     if kind == 'chords':
         if obj.get('expect'):
             res = run_chords(obj, cache)
